@@ -88,6 +88,8 @@ static void dispatched(int fam, T* b, T* e, Cmp cmp) {
 struct E {
     uint8_t key, id;
 };
+VERIF_MISLEADING_ORDER(E, key)
+VERIF_MISLEADING_EQUALITY(E, key)
 struct ELess { bool operator()(const E& a, const E& b) const { return a.key < b.key; } };
 struct EGreater { bool operator()(const E& a, const E& b) const { return a.key > b.key; } };
 
@@ -196,6 +198,7 @@ struct Rec {
     std::string payload;
     bool operator==(const Rec& o) const { return key == o.key && payload == o.payload; }
 };
+VERIF_MISLEADING_ORDER(Rec, key)
 struct RecLess { bool operator()(const Rec& a, const Rec& b) const { return a.key < b.key; } };
 struct RecClass { bool operator()(const Rec& a, const Rec& b) const { return a.key / 4 > b.key / 4; } };
 struct StrLenLess { bool operator()(const std::string& a, const std::string& b) const { return a.size() < b.size(); } };
